@@ -84,6 +84,8 @@ def gen(tier, rng, harness=None):
     for b in patterns(rng, 11, 52, n // 3):
         if ((b >> 52) & 0x7FF) != 0x7FF:
             lines.append("!flt.rt ppc_fp128 %016X%016X" % (b, 0))
+    for b in (0x7FF0000000000000, 0xFFF0000000000000, 0, 1 << 63):          # the two infinities and the two zeros
+        lines.append("!flt.rt ppc_fp128 %016X%016X" % (b, 0))
     # values that need EVERY significand bit (odd p-bit integers scaled by small powers of two) and are still printed in decimal notation: the reader of
     # decimal literals must round at exactly p bits (half 11, float 24, double 53)
     import struct
@@ -133,7 +135,7 @@ def gen(tier, rng, harness=None):
     for _ in range(n):
         txt = "%s%d.%s" % (rng.choice(["", "-"]), rng.choice([0, 0, 1, 3, 123456789, rng.getrandbits(40)]), "".join(rng.choice("0123456789") for _ in range(rng.randint(1, 25))))
         if rng.random() < 0.3:
-            txt += "e%s%02d" % (rng.choice("+-"), rng.randint(0, 300))
+            txt += "e%s%02d" % (rng.choice("+-"), rng.randint(0, 290))        # (mantissa < 2^40: stays below the largest double)
         lines.append("!flt.decround double " + txt)
     for txt in ("0.1", "0.3", "1.7976931348623157e+308", "4.9406564584124654e-324", "2.2250738585072014e-308", "9007199254740993.0", "9007199254740995.0", "0.5000000000000000277555756156289135105907917022705078125",
                 "1.00000000000000011102230246251565404236316680908203125", "1.00000000000000011102230246251565404236316680908203124", "1.00000000000000011102230246251565404236316680908203126"):
@@ -188,7 +190,8 @@ def extra(res, findings, tier, rng, harness, driver):
             lit = "0xK%020X" % b
         elif k == "ppc_fp128":
             hi = rng.getrandbits(64)
-            if nan(hi, 11, 52): hi = 0x7FF8000000000000
+            # (a ppc_fp128 NaN is re-spelled by llir with another low double: the recorded NaN-payload finding; not generated here)
+            if nan(hi, 11, 52): hi = 0x7FF0000000000000 | (hi & (1 << 63))
             lit = "0xM%016X%016X" % (hi, 0)
         else:
             k = rng.choice(["double", "float", "half"])
